@@ -767,6 +767,10 @@ def _filter_failures(spec: dict) -> tuple:
         profiles = {h[1] for h in hits}
         competing = any(len(profiles & set(group)) >= 2 for group in groups)
         comps = _filter_components(hits)
+        if competing:
+            for one, two in itertools.combinations(kept, 2):
+                if min(one[3], two[3]) - max(one[2], two[2]) > 20:
+                    failures.append(("filter_survivors_overlap", {"cds": cds, "pair": [one, two], "kept": kept}))
         for comp in comps:
             members = [hits[i] for i in comp]
             best = max(h[4] for h in members)
